@@ -473,6 +473,28 @@ def r123(ctx, rep):
                             rep.finding("R12.3", f, norm(node), node.lineno, f"the recorded value stored in {bname} is not the `{bname.lstrip('_')}` handed in for the new point")
     if n < 7:
         raise AnalysisError(f"update_interpolation: only {n} indexed stores found (floor 7)")
+    # residual of the old models at the new point: (new value) - (model value at x_new)
+    nres = 0
+    for node in ast.walk(f.node):
+        if isinstance(node, ast.Assign) and len(node.targets) == 1 and isinstance(node.targets[0], ast.Subscript):
+            base = node.targets[0].value
+            bname = base.id if isinstance(base, ast.Name) else (base.attr if isinstance(base, ast.Attribute) else "")
+            v = node.value
+            calls_model = [x for x in ast.walk(v) if isinstance(x, ast.Call) and isinstance(x.func, ast.Attribute) and x.func.attr in ("fun", "cub", "ceq") and isinstance(x.func.value, ast.Name) and x.func.value.id == f.self_name]
+            if not calls_model:
+                continue
+            nres += 1
+            grp_ = calls_model[0].func.attr
+            desc = f"{f.local}:{node.lineno} residual `{norm(v)[:50]}`"
+            good = isinstance(v, ast.BinOp) and isinstance(v.op, ast.Sub) and v.right is calls_model[0] and isinstance(v.left, ast.Name) and v.left.id == f"{grp_}_val" \
+                and calls_model[0].args and isinstance(calls_model[0].args[0], ast.Name) and calls_model[0].args[0].id in f.params
+            if good:
+                rep.ok("R12.3", desc + " = new value - model value at the new point")
+            else:
+                rep.bad("R12.3", desc)
+                rep.finding("R12.3", f, norm(node)[:100], node.lineno, f"the residual that drives the update of the {grp_} model(s) must be `{grp_}_val - self.{grp_}(x_new)` (new value minus the old model's prediction at the new point): otherwise the updated model does not take the recorded value at the new point")
+    if nres < 3:
+        raise AnalysisError(f"update_interpolation: only {nres} residual computations found (floor 3)")
     g = ctx.func(Q_UPDATE)
     for ev in ctx.events(f):
         if ev.kind == "call" and any(t.kind == "repo" and t.name == Q_UPDATE for t in ev.targets):
